@@ -57,14 +57,17 @@ def reset_process_state():
 
 
 def run_tool(tool, argv, fs, sim=None, stdin=b"", stdin_plan=None,
-             stdout_fail=None, clock=None, stdin_closed=False):
+             stdout_fail=None, clock=None, stdin_closed=False,
+             stdout_closed=False, stderr_closed=False):
     """argv excludes the program name.  stdin: bytes.  clock: a SimClock
     that answers every question about the time and the day."""
     if clock is not None:
         from detsim.simclock import installed_clock
         with installed_clock(clock):
             return run_tool(tool, argv, fs, sim, stdin, stdin_plan,
-                            stdout_fail, stdin_closed=stdin_closed)
+                            stdout_fail, stdin_closed=stdin_closed,
+                            stdout_closed=stdout_closed,
+                            stderr_closed=stderr_closed)
     mod = TOOLS[tool]
     out = Outcome()
     so = SimStream(name="<stdout>", fail_write=stdout_fail)
@@ -75,7 +78,9 @@ def run_tool(tool, argv, fs, sim=None, stdin=b"", stdin_plan=None,
     sys.argv = [tool] + [str(a) for a in argv]
     # (a process started with its standard input closed, 'cmd <&-', has
     # sys.stdin = None)
-    sys.stdin, sys.stdout, sys.stderr = (None if stdin_closed else si), so, se
+    sys.stdin, sys.stdout, sys.stderr = (
+        None if stdin_closed else si, None if stdout_closed else so,
+        None if stderr_closed else se)
     try:
         with open_router(fs):
             if sim is not None:
